@@ -27,9 +27,29 @@ def gen_case(rng):
     return scn, {"seed": rng.getrandbits(32), "steps": rng.randint(1, 3)}
 
 
-def run_case(rep, scn, case, sb, tag):
+def pool_row(rows, jc, scn, base, files, plan, res, what):
+    """one real run -> a Converge.pool_run case per repository whose pool stage ran"""
+    faults = R.realise_plan(plan or {}, files)
+    for r in scn.repos:
+        url = r["url"]
+        o = res.obs.get(url, {})
+        if "pool_queue" not in o:
+            continue
+        cleaned = bool(o.get("cleaned")) and res.results.get(url) is True
+        fin = R.pool_listing(base / "mirror" / P.repo_dir(url)) if cleaned else None
+        term, want = R.pool_tie_row(o, files[url], faults.get(url, {}), fin)
+        rows.append((dict(jc, run=what), term, want,
+                     {"cleaned": fin is not None, "counted": bool(o.get("pool_err") or o.get("pool_miss")),
+                      "had_files": bool(o["pool_pre"]), "stale": len(set(o["pool_pre"]) - set(fin)) if fin is not None else 0,
+                      "queued": len(o["pool_queue"]),
+                      "wrong_size_before": sum(1 for f in o["pool_queue"] for v in f["variants"][:1]
+                                               if v["source"] in o["pool_pre"] and o["pool_pre"][v["source"]][0] != v["size"])}))
+
+
+def run_case(rep, scn, case, sb, tag, rows=None):
     rng = random.Random(case["seed"])
     found = False
+    rows = rows if rows is not None else []
     base = sb / tag
     url = scn.repos[0]["url"]
     cur = scn
@@ -53,6 +73,9 @@ def run_case(rep, scn, case, sb, tag):
                              local_fault=rng.randint(1, 150) if mode == "local" else None,
                              path_fault=stamp, path_fault_kinds=("utime",))
         history.append((mode, res.code))
+        if mode in ("clean", "faulty", "pool_fail"):
+            pool_row(rows, {"scenario": {"repos": scn.repos, "nthreads": scn.nthreads}, "case": case,
+                            "history": list(history)}, cur, base, files, plan, res, f"step {step} ({mode})")
         if rng.random() < 0.35:
             history.append(("same-upstream", 0))     # the next run sees the same upstream version again
             continue
@@ -65,6 +88,7 @@ def run_case(rep, scn, case, sb, tag):
     rep.count(f"steps.{case['steps']}")
     for m, c in history:
         rep.count(f"step.{m}.exit{c}")
+    pool_row(rows, jc, cur, base, files, {}, final, "final")
     if final.code != 0:
         found = True
         rep.violation(f"fault-free run on the latest upstream exits {final.code} after history {history} ({final.exc})",
@@ -74,6 +98,7 @@ def run_case(rep, scn, case, sb, tag):
     fr = R.run_observed(cur, fresh, files_by_url=files)
     if fr.code != 0:
         return found
+    pool_row(rows, jc, cur, fresh, files, {}, fr, "fresh")
     got, want = mirror_tree(base, url), mirror_tree(fresh, url)
     if got != want:
         found = True
@@ -87,6 +112,7 @@ def run_case(rep, scn, case, sb, tag):
     before = mirror_tree(base, url, with_mtime=True)
     again = R.run_observed(cur, base, files_by_url=files)
     after = mirror_tree(base, url, with_mtime=True)
+    pool_row(rows, jc, cur, base, files, {}, again, "repeat")
     up = again.ups[url.rstrip("/")]
     pool_reqs = [p for p, _, _ in up.log if p.startswith("pool/")]
     if again.code != 0 or after != before:
@@ -129,12 +155,26 @@ def run(rep: C.Report):
     n = 70 if rep.tier == "quick" else 3000
     sb = P.sandbox("vsb_c08_")
     found = False
+    rows = []
     try:
         for i in range(n):
             scn, case = gen_case(rng)
-            found |= run_case(rep, scn, case, sb, f"h{i}")
+            found |= run_case(rep, scn, case, sb, f"h{i}", rows)
     finally:
         shutil.rmtree(sb, ignore_errors=True)
+    # the pool stage + cleaning of every recorded run, replayed on Converge.pool_run from the real previous tree
+    header = R.POOL_HEADER + R.POOL_DEFS
+    for _, _, _, m in rows:
+        rep.count("pool_tie.runs")
+        rep.count("pool_tie.cleaned", int(m["cleaned"]))
+        rep.count("pool_tie.stage_counted_a_failure", int(m["counted"]))
+        rep.count("pool_tie.previous_tree_nonempty", int(m["had_files"]))
+        rep.count("pool_tie.stale_files_removed", m["stale"])
+        rep.count("pool_tie.queued_files", m["queued"])
+        rep.count("pool_tie.wrong_size_leftovers_before", m["wrong_size_before"])
+    mism, errors = C.run_mismatch_shards(rep.prop, "pool", header, "m_pool", "eq_pool", [(a, b) for _, a, b, _ in rows], shard=25)
+    C.tie_verdict(rep, "pool", mism, errors, [c for c, _, _, _ in rows], found, header=header, fn="m_pool",
+                  coq_inputs=[a for _, a, _, _ in rows])
     C.proof_verdict(rep, found)
 
 
